@@ -29,8 +29,8 @@ func init() {
 			for _, api := range []bool{false, true} {
 				for _, mount := range []string{"/auth", "/a/b"} {
 					for _, uid := range []string{"", "ghost@x.io", "known"} {
-						for _, half := range []bool{false, true} {
-							for _, tf := range []bool{false, true} {
+						for _, half := range []string{"-", "true", "false"} {
+							for _, tf := range []string{"-", "totp", ""} {
 								for _, reqFull := range []bool{false, true} {
 									for _, reqTf := range []bool{false, true} {
 										for _, fail := range []string{"n", "r", "u"} {
@@ -50,13 +50,25 @@ func init() {
 													} else if uid != "" {
 														sess["uid"] = uid
 													}
-													if half {
-														sess["halfauth"] = "true"
+													if half != "-" {
+														sess["halfauth"] = half // the mark counts by presence, whatever its value
 													}
-													if tf {
-														sess["twofactor"] = "totp"
+													if tf != "-" {
+														sess["twofactor"] = tf
 													}
+													base := sess
 													for k := 0; k < *paths; k++ {
+														// every OTHER session key the library knows must not matter for the decision:
+														// sample 0 has none of them, sample 1 all of them, the others a random subset
+														sess = map[string]string{}
+														for kk, vv := range base {
+															sess[kk] = vv
+														}
+														for ni, nk := range noiseKeys {
+															if k == 1 || (k > 1 && rng.Intn(3) == 0) {
+																sess[nk] = noiseVals[(ni+row+k)%len(noiseVals)]
+															}
+														}
 														var rq SymReq
 														if mp {
 															// module routes: mount-pathed middleware; requirement bits are fixed by the route
@@ -110,6 +122,10 @@ func init() {
 		}
 	}
 }
+
+var noiseKeys = []string{"twofactor_authed", "twofactor_auth_token", "totp_pending", "totp_secret", "sms_pending", "sms_secret",
+	"sms_number", "sms_secret_number", "sms_last", "oauth2_state", "oauth2_params", "last_action", "appkey"}
+var noiseVals = []string{"true", "u1@x.io", "totp", "1"}
 
 // rawLiteral sends single-parameter queries whose value contains slashes literally (as browsers do)
 func rawLiteral(rq *SymReq) {
